@@ -618,6 +618,12 @@ def monitor_c17(ctx):
         for kind in ('dict', 'lru2', 'readthrough'):
             pays.append({'heap': '(U (M 1 (S:69 D:0:0:0:c)) (M 2 (S:69 D:0:1:0:c)))', 'cache': kind,
                          'calls': [['eval', t, 0, 1000, 7], ['eval', t, 1, 1000, 7], ['eval', t, 0, 1000, 7], ['parse', t], ['eval', t, 0, 1000, 7]]})
+    # long and deeply nested (legal) texts, parsed only: whatever the cache does with a tree (copies it, walks it), the outcome is the uncached one
+    for t in [' + '.join(['1'] * 250), ' or '.join(['a'] * 250), ' + '.join(['1'] * 150), '(' * 150 + '1' + ')' * 150, '[' * 120 + '1' + ']' * 120, 'f(' * 100 + '1' + ')' * 100,
+              '[' + ', '.join(['1'] * 3000) + ']', '\n'.join(f'x{i} = {i}' for i in range(400)), ' | '.join(['x'] + ['str'] * 300), 'a' + '[0]' * 250, '-' * 250 + '1',
+              '{' + ', '.join(f'"k{i}": {i}' for i in range(1500)) + '}', ' if 1 else '.join(['1'] * 200)]:
+        for kind in ('dict', 'lru2', 'evict'):
+            pays.append({'heap': '(U (M 1 (S:69 D:0:0:0:c)))', 'cache': kind, 'default_stack': True, 'calls': [['parse', t], ['parse', t], ['parse', t + ' ']]})
     return _run('c17', 'c17', pays, 'a cached (dict / LRU(2) / always-evicting) and an uncached SqParser driven in lock-step over the same history; '
                 'attribute-level snapshot of every cached tree around each call')
 
